@@ -250,7 +250,7 @@ def device_body(c):
     hs = [(t, g[4]) for t, g in zip(sl, geo)]
     kind = c["tree"]["kind"]
     op = c["op"]
-    res = Res(nontrivial=kind == "shift", key=(sorted(sorted(x) for x in topo.clades()), kind, op, c["tree"]["tip_heights"], [np.round(list(h.values()), 6).tolist() for _, h in hs]),
+    res = Res(nontrivial=kind == "shift" or op.startswith("inplace"), key=(sorted(sorted(x) for x in topo.clades()), kind, op, c["tree"]["tip_heights"], [np.round(list(h.values()), 6).tolist() for _, h in hs]),
               labels=(kind, op), tags={"cls": kind, "op": op})
     rows = params_tensor(c, hs, n)
     tree, dic = tt.build(tree_spec(dict(c, B=0), names, dates, topo, rows[:1]))
@@ -265,7 +265,19 @@ def device_body(c):
         tree.to(torch.float32)
         tree.to(torch.float64)
     # update the parameters to the second slice's values
-    if kind == "ratio":
+    if op in ("inplace", "inplace_twice"):
+        # what the optimiser does: modify the tensors in place, then notify
+        for _ in range(2 if op == "inplace_twice" else 1):
+            with torch.no_grad():
+                if kind == "ratio":
+                    dic["ratios"].tensor.copy_(torch.tensor(rows[1][0], dtype=dt))
+                    dic["root_height"].tensor.copy_(torch.tensor(rows[1][1], dtype=dt))
+                else:
+                    dic["shifts"].tensor.copy_(torch.tensor(rows[1][0], dtype=dt))
+            for pid in (("ratios", "root_height") if kind == "ratio" else ("shifts",)):
+                dic[pid].fire_parameter_changed()
+            _ = tree.node_heights
+    elif kind == "ratio":
         dic["ratios"].tensor = torch.tensor(rows[1][0], dtype=dt)
         dic["root_height"].tensor = torch.tensor(rows[1][1], dtype=dt)
     else:
@@ -281,7 +293,55 @@ def device_body(c):
 @st.composite
 def device_case(draw):
     c = draw(case(nmax=8, force_batch=2))
-    c["op"] = draw(st.sampled_from(["cpu", "cpu", "to32", "to64"]))
+    c["op"] = draw(st.sampled_from(["cpu", "cpu", "to32", "to64", "inplace", "inplace", "inplace_twice"]))
+    return c
+
+
+def smooth_body(c):
+    """DifferenceNodeHeightTransform with the smooth maximum (k > 0) used directly: forward map equals
+    h_i = logsumexp(k * children heights) / k + shift_i (documented), inverse returns the shifts, batched = per slice"""
+    from torchtree.evolution.tree_height_transform import DifferenceNodeHeightTransform
+
+    topo = phylo.case_topo(c)
+    n = topo.n
+    sl = slices(c) if c["B"] else [c["tree"]]
+    geo = geometry(c, sl[0])
+    names, dates = geo[1], geo[2]
+    tip_h = c["tree"]["tip_heights"]
+    k = c["k"]
+    res = Res(nontrivial=abs(k - 1.0) > 1e-6, key=(sorted(sorted(x) for x in topo.clades()), tip_h, round(k, 6), c["B"], [np.round(t["shifts"], 6).tolist() for t in sl]),
+              labels=("smooth", "B=%d" % c["B"], "k<1" if k < 1 else "k>1"), tags={"cls": "shift_smooth", "batched": c["B"] > 0})
+    rows = [(t["shifts"], None) for t in sl]
+    tree, dic = tt.build(tree_spec(dict(c, B=0), names, dates, topo, rows[:1]))
+    tr = DifferenceNodeHeightTransform(tree, k)
+    x = torch.tensor([r[0] for r in rows]) if c["B"] else torch.tensor(rows[0][0])
+    y = tr(x)
+    want = []
+    for shifts, _ in rows:
+        h = {i: tip_h[i] for i in range(n)}
+        for node, l, r in topo.post:
+            m = max(h[l], h[r])
+            h[node] = m + np.log(np.exp(k * (h[l] - m)) + np.exp(k * (h[r] - m))) / k + shifts[node - n]
+        want.append([h[i] for i in range(n, 2 * n - 1)])
+    want = np.array(want if c["B"] else want[0])
+    tol = 1e-9 * max(1.0, float(np.max(want)))
+    if maxabs(y, want) > tol:
+        return res.fail("smooth_forward", {"got": arr(y).tolist(), "want": want.tolist(), "k": k})
+    xi = tr.inv(torch.tensor(want))
+    if maxabs(xi, arr(x)) > 1e-8 * max(1.0, float(np.max(want))) or tuple(xi.shape) != tuple(x.shape):
+        return res.fail("smooth_inverse", {"x": arr(x).tolist(), "inv": arr(xi).tolist(), "k": k})
+    return res
+
+
+@st.composite
+def smooth_case(draw):
+    c = draw(case(nmax=10))
+    n = len(c["topo"]["perm"])
+    t = draw(phylo.tree_part(n, ("shift",)))
+    t.pop("clock", None)
+    c["tree"] = t
+    c["extra"] = [{"shifts": draw(phylo.tree_part(n, ("shift",)))["shifts"]} for _ in range(max(0, c["B"] - 1))]
+    c["k"] = draw(st.sampled_from([0.5, 2.0, 5.0, 20.0, draw(logu(0.2, 50.0))]))
     return c
 
 
@@ -333,5 +393,6 @@ def subchecks(tier):
     return [
         Sub("random", body, strategy=lambda: case(nmax=40), quick=600, thorough=15000, pretags=pretags),
         Sub("all_topologies", body, enumerate=topo_cases, expand=expand_topo, exhaustive=(tier == "thorough"), pretags=pretags),
-        Sub("device_dtype", device_body, strategy=device_case, quick=200, thorough=3000, pretags=pretags),
+        Sub("device_dtype", device_body, strategy=device_case, quick=300, thorough=4000, pretags=pretags),
+        Sub("smooth_shift", smooth_body, strategy=smooth_case, quick=200, thorough=3000, pretags=pretags),
     ]
